@@ -4,6 +4,7 @@ package main
 // malformed stream that feeds the rejection paths.  Every choice derives from the case's RNG.
 
 import (
+	"bytes"
 	"fmt"
 	"sort"
 
@@ -241,6 +242,13 @@ func (g *Gen) rejectedDI() (DI, string) {
 		b := r.Bytes(129 + r.Intn(3))
 		for i := range b {
 			b[i] = 'n'
+		}
+		switch r.Intn(3) {
+		case 0:
+			// too long in bytes, not in characters: 65 two-byte runes, or 43 three-byte ones and a letter
+			b = bytes.Repeat([]byte("\xc3\xa9"), 65)
+		case 1:
+			b = append(bytes.Repeat([]byte("\xe4\xb8\x96"), 43), 'x')
 		}
 		di.Opts = append(di.Opts, DIOpt{Kind: "name", B: b})
 	case "extra385":
@@ -716,6 +724,15 @@ func (g *Gen) nextOp(f *sif.FileImage) *Op {
 			}
 		case y < 7:
 			op.MD = MD{Kind: "nil"}
+			if len(in.parts) > 0 {
+				// a caller that maintains partition metadata itself: a well-formed partition record,
+				// any partition type (incl. primary system), any architecture, aimed at a partition
+				ex := make([]byte, 11)
+				ex[0], ex[4] = byte(1+r.Intn(5)), byte(1+r.Intn(4))
+				copy(ex[8:], pick(r, archCodes))
+				op.ID, op.MD = pick(r, in.parts), MD{Kind: "raw", B: ex}
+				g.count("setmeta:partition-record-as-raw-bytes")
+			}
 		case y < 8:
 			op.MD = MD{Kind: "fail"}
 			g.count("reject:setmeta-marshal")
@@ -811,6 +828,10 @@ func (g *Gen) callerPred(in imgInfo) Sel {
 		s.M = append(s.M, uint32(60+r.Intn(4))) // an ID nothing has
 	}
 	g.count("q:caller-predicate")
+	if r.Chance(1, 3) {
+		s.Nest = true
+		g.count("q:caller-predicate-queries-the-same-handle")
+	}
 	if r.Chance(1, 2) {
 		switch {
 		case len(ids) > 1 && r.Chance(2, 3):
